@@ -145,6 +145,14 @@ impl DefaultInputTextPlugin {
         self.ignore_normalize_set.contains(&ch)
     }
 
+    /// Whether lowercasing changes the character.
+    /// `char::is_uppercase` is false for titlecase letters (e.g. U+01C5), which have a lowercase mapping too.
+    #[inline]
+    fn needs_lowercase(ch: char) -> bool {
+        let mut lower = ch.to_lowercase();
+        lower.next() != Some(ch) || lower.next().is_some()
+    }
+
     /// Fast case: lowercasing is not needed and the string is already in NFKC
     /// Use AhoCorasick automaton to find all replacements and replace them
     ///
@@ -197,7 +205,7 @@ impl DefaultInputTextPlugin {
             }
 
             // 2. handle normalization
-            let need_lowercase = ch.is_uppercase();
+            let need_lowercase = Self::needs_lowercase(ch);
             let need_nkfc = !self.should_ignore(ch)
                 && match is_nfkc_quick(std::iter::once(ch)) {
                     IsNormalized::Yes => false,
@@ -284,7 +292,7 @@ impl InputTextPlugin for DefaultInputTextPlugin {
             _ => true,
         };
 
-        let need_lowercase = chars.iter().any(|c| c.is_uppercase());
+        let need_lowercase = chars.iter().any(|c| Self::needs_lowercase(*c));
 
         if need_nkfc || need_lowercase {
             self.replace_slow(buffer, edit)
